@@ -40,6 +40,10 @@
                    g<k>:<c> (the first k outputs half written: content c + o) | j<n> (command finished, n log entries written)
         p<t>+<t>..@<j>:<ev>/<ev>..   one invocation with -j <j> (0 = no limit) under a SCHEDULE (HistParDefs.par_run): ev = s<e>
                    (the command of statement e is started) | f<e> (it finishes), in the order they happened
+        p<t>+<t>..@<j>:<ev>/..@<e>.<q>/<e>.<q>..:<q>.<d>/<q>.<d>..   the same under POOLS (HistParPoolDefs.par_run_pool): statement e
+                   belongs to pool q (statements not listed: the default pool), pool q has depth d (0 = unlimited; the console
+                   pool is a pool of depth 1); "-" = empty list.  Without this field: no pools (par_run_pool = par_run then,
+                   HistParPoolProofs.par_run_nopool)
         i<t>+<t>..@<pos>:<k>:<c>   an invocation INTERRUPTED while statement pos runs, after k output writes (content c + o);
                    Builder::Cleanup removes what was modified (HistCrashDefs.buildI)
 
@@ -155,7 +159,8 @@ type xstep =
   | FB of nat list * (int * char * int) list * int option     (* targets, (statement, kind, content base), -k N (None: -k1 model) *)
   | KB of nat list * int * char * int * int      (* killed: targets, position, point b|l|w|g|j, count, content base *)
   | IB of nat list * int * int * int             (* interrupted: targets, position, writes, content base *)
-  | PB of nat list * int * pevent list           (* a build under a schedule: targets, job limit (0 = none), events *)
+  | PB of nat list * int * pevent list * (nat * nat) list * (nat * nat) list
+      (* a build under a schedule: targets, job limit (0 = none), events, statement -> pool, pool -> depth *)
 
 let parse_step (t : string) : xstep =
   let two s = match String.split_on_char ':' s with
@@ -187,15 +192,23 @@ let parse_step (t : string) : xstep =
         | _ -> failwith ("bad crash point " ^ cp))
      | _ -> failwith ("bad step " ^ t))
   | 'p' ->
+    let sched sc = match String.split_on_char ':' sc with
+      | [j; evs] ->
+        (int_of_string j,
+         List.map (fun x -> let e = nat_of_int (int_of_string (rest x)) in
+                    match x.[0] with 's' -> Start e | 'f' -> Finish e | _ -> failwith ("bad event " ^ x))
+           (items '/' evs))
+      | _ -> failwith ("bad schedule " ^ sc) in
+    let pairs s = List.map (fun x -> match String.split_on_char '.' x with
+        | [a; b] -> (nat_of_int (int_of_string a), nat_of_int (int_of_string b))
+        | _ -> failwith ("bad pool entry " ^ x)) (items '/' s) in
     (match String.split_on_char '@' (rest t) with
-     | [ts; sc] ->
-       (match String.split_on_char ':' sc with
-        | [j; evs] ->
-          PB (nids '+' ts, int_of_string j,
-              List.map (fun x -> let e = nat_of_int (int_of_string (rest x)) in
-                         match x.[0] with 's' -> Start e | 'f' -> Finish e | _ -> failwith ("bad event " ^ x))
-                (items '/' evs))
-        | _ -> failwith ("bad schedule " ^ sc))
+     | [ts; sc] -> let (j, evs) = sched sc in PB (nids '+' ts, j, evs, [], [])
+     | [ts; sc; pl] ->
+       let (j, evs) = sched sc in
+       (match String.split_on_char ':' pl with
+        | [po; dp] -> PB (nids '+' ts, j, evs, pairs po, pairs dp)
+        | _ -> failwith ("bad pools " ^ pl))
      | _ -> failwith ("bad step " ^ t))
   | 'i' ->
     (match String.split_on_char '@' (rest t) with
@@ -357,14 +370,15 @@ let hist_line (direct : bool) (l : string) : string =
                                     (es (trace_delta !st st')) (b ook) (es orun) (show_nodes st'));
            st := st'
          | None -> Buffer.add_string buf (Printf.sprintf " | K ok=0 hit=0 ts=%s run=- oldok=%s old=%s nodes=%s" (b ts) (b ook) (es orun) (show_nodes !st)))
-      | PB (t, j, sched) ->
+      | PB (t, j, sched, pol, dpl) ->
         (* one invocation under the schedule the engine's -j N run took (HistParDefs.par_run); next to it the sequential
            faithful loop from the same state: same commands, same contents (confluence).  The history goes on from the
            PARALLEL result. *)
         let ts = taint_safe g !st in
         let lim = if j <= 0 then None else Some (nat_of_int j) in
+        let pof = pool_of_list pol and dep = depth_of_list dpl in
         let acc = match scan (graph_of g !st) (world_of !st) t with
-          | ScanOk (s0, p0) -> int_of_nat (par_accepted cmdf g lim sched (init_pcfg !st s0 p0))
+          | ScanOk (s0, p0) -> int_of_nat (par_accepted_pool cmdf g pof dep lim sched (init_pcfg !st s0 p0))
           | _ -> 0 in
         let (bfok, bfrun, bfst) = match build_f cmdf g !st t with
           | Some st' -> (true, trace_delta !st st', Some st') | None -> (false, [], None) in
@@ -374,7 +388,7 @@ let hist_line (direct : bool) (l : string) : string =
             | None -> not ok in
           Buffer.add_string buf (Printf.sprintf " | P res=%s ok=%s acc=%d ts=%s run=%s bfok=%s bf=%s conf=%s nodes=%s" res (b ok) acc (b ts)
                                    (es (trace_delta !st st')) (b bfok) (es bfrun) (b conf) (show_nodes st')) in
-        (match par_run cmdf g lim !st t sched with
+        (match par_run_pool cmdf g pof dep lim !st t sched with
          | PDone c -> line "done" true c.p_st; st := c.p_st
          | PRefused -> line "refused" false !st
          | PInvalid -> line "invalid" false !st
